@@ -392,4 +392,82 @@ class C06i(Obligation):
             ctx.check(out.raised(RefactoringError), 'anything else is refused with RefactoringError: inlining would drop a store or is meaningless')
 
 
-OBLIGATIONS = [C06a, C06b, C06d, C06f, C06g, C06h, C06i]
+EXTRACT_CORPUS = [
+    # pure code: the observable behaviour is the final value of `result`
+    "def f(a, b):\n    c = (a + b) * 2\n    d = [a, b][0] - c\n    return c if d else -d\n\nresult = f(1, 2) + f(3, 4)\n",
+    "x = 5\ny = {'k': x}['k'] ** 2\nresult = (x, -y + 1, not x or y)\n",
+]
+
+
+def run_result(code):
+    ns = {}
+    exec(compile(code, '<program>', 'exec'), ns)
+    return ns.get('result', '<no result>')
+
+
+def judge_program(original, new_code):
+    """('ok', None) iff new_code compiles and computes the same `result` as the original"""
+    try:
+        compile(new_code, '<refactored>', 'exec')
+    except SyntaxError as e:
+        return ('does-not-compile', str(e))
+    want = run_result(original)
+    try:
+        got = run_result(new_code)
+    except Exception as e:
+        return ('fails-at-run-time', type(e).__name__)
+    return ('ok', None) if got == want else ('different-result', (want, got))
+
+
+class C06c(Obligation):
+    id = 'C06.c'
+    title = 'extract_variable over EVERY selection of a program: refused with RefactoringError, or the result compiles and computes the same'
+    pattern = 'P4 concrete tree x symbolic selection (start and end are unconstrained integers inside the text); oracle: compile + run both programs'
+    interpret_modules = ('jedi', 'parso', 'obligations')
+    loop_bound = 600
+    max_paths = 20000
+    assumptions = (
+        'corpus of side-effect-free programs parsed natively; the selection (line, column)..(until_line, until_column) is '
+        'symbolic within the text (start <= end), or only a cursor is given (no end); the selection normalisation '
+        '(_find_nodes, _remove_unwanted_expression_nodes, parso.get_leaf_for_position) is interpreted, so the solver '
+        'partitions the selection space into the regions the code distinguishes; per region the refactoring is built and '
+        'both programs are compiled and executed (CPython trusted)',
+    )
+    findings = {
+        'C06-extract-splits-call': 'a selection that ends inside the callee/attribute chain of an operand (f(1) + f|(2)) is extracted across the operator',
+    }
+
+    def configs(self, tier):
+        out = []
+        for i in range(len(EXTRACT_CORPUS)):
+            out.append(dict(file=i, end=False))
+            out.append(dict(file=i, end=True))
+        return out
+
+    def scenario(self, ctx, cfg):
+        src = EXTRACT_CORPUS[cfg['file']]
+        script = _jedi.Script(src, path='/virtual/m.py')
+        lines = src.split('\n')
+        K = len(lines) - 1
+        line = ctx.int('line', 1, K)
+        column = ctx.int('column', 0)
+        ctx.assume(column <= len(lines[line - 1]))
+        until = None
+        if cfg['end']:
+            until_line = ctx.int('until_line', 1, K)
+            until_column = ctx.int('until_column', 0)
+            ctx.assume(until_column <= len(lines[until_line - 1]))
+            ctx.assume(ctx.Or(until_line > line, ctx.And(until_line == line, until_column >= column)))
+            until = (until_line, until_column)
+        out = ctx.call(X.extract_variable, script._inference_state, script.path, script._module_node, 'nv', (line, column), until)
+        if out.exc is not None:
+            ctx.check(out.raised(RefactoringError), 'a selection that cannot be extracted is refused with RefactoringError, nothing else')
+            return
+        new_code = out.value.get_changed_files()[script.path].get_new_code()
+        verdict = judge_program(src, new_code)
+        ctx.observe((verdict[0], new_code), 'result')
+        ctx.check(verdict[0] != 'does-not-compile', 'the refactored program compiles')
+        ctx.check(verdict[0] in ('ok', 'does-not-compile'), 'and computes the same result')
+
+
+OBLIGATIONS = [C06a, C06b, C06d, C06f, C06g, C06h, C06i, C06c]
